@@ -89,12 +89,17 @@ func TestC06Enum(t *testing.T) {
 	}
 	shard, n := shardInfo()
 	counter := 0
+	progs := 0
 	for _, prog := range c06Catalogue() {
+		if prog.DirMax > 0 {
+			continue // the directory limit is adjustable on the light backend only: parts lenum and lrand run these
+		}
+		progs++
 		if !enumerateSingle(t, prop, part, prog, shard, n, &counter) {
 			return
 		}
 	}
-	ev.Note(prop, fmt.Sprintf("part enum: every single forced preemption of the concurrent phase of %d catalogue programs (%d schedules, sharded %d ways)", len(c06Catalogue()), counter, n))
+	ev.Note(prop, fmt.Sprintf("part enum: every single forced preemption of the concurrent phase of %d catalogue programs (%d schedules, sharded %d ways)", progs, counter, n))
 }
 
 func genC06(t *rapid.T) Case {
